@@ -49,6 +49,35 @@ func genRange(lo, hi int64) seqGen {
 	}
 }
 
+// genRepeat enumerates every integer of [lo, hi], each rep times in a row (short domains
+// are stretched so that they, too, go through long buffers).
+func genRepeat(lo, hi int64, rep int) seqGen {
+	return func(shard, n int) func([]int64) int {
+		if shard != 0 {
+			return func([]int64) int { return 0 }
+		}
+		cur, k := lo, 0
+		done := false
+		return func(buf []int64) int {
+			c := 0
+			for !done && c < len(buf) {
+				buf[c] = cur
+				c++
+				k++
+				if k == rep {
+					k = 0
+					if cur == hi {
+						done = true
+					} else {
+						cur++
+					}
+				}
+			}
+			return c
+		}
+	}
+}
+
 // genList enumerates a sorted list.
 func genList(list []int64) seqGen {
 	return func(shard, n int) func([]int64) int {
@@ -191,7 +220,7 @@ func runSeqStrict(c *core.Ctx, gen seqGen, nshards int, chans []int, strict bool
 			for i := 0; i < n; i++ {
 				point(sweepPos{ch, i, 0, n, 0, ch}, in[i], out[i])
 				if r.any {
-					if out[i] < r.lastOut || (strict && out[i] == r.lastOut) {
+					if out[i] < r.lastOut || (strict && out[i] == r.lastOut && in[i] != r.lastIn) {
 						orderFail(sweepPos{ch, i, r.lastIdx, n, r.lastN, ch}, r.lastIn, r.lastOut, in[i], out[i])
 					}
 				} else {
@@ -214,7 +243,7 @@ func runSeqStrict(c *core.Ctx, gen seqGen, nshards int, chans []int, strict bool
 		if !r.any {
 			continue
 		}
-		if prev != nil && (r.firstOut < prev.lastOut || (strict && r.firstOut == prev.lastOut)) {
+		if prev != nil && (r.firstOut < prev.lastOut || (strict && r.firstOut == prev.lastOut && r.firstIn != prev.lastIn)) {
 			// (values of neighbouring shards may have gone through different channel counts; the isolated
 			// re-evaluation uses the later shard's)
 			orderFail(sweepPos{chans[i%len(chans)], 0, prev.lastIdx, 1, prev.lastN, chans[prevShard%len(chans)]}, prev.lastIn, prev.lastOut, r.firstIn, r.firstOut)
